@@ -370,6 +370,9 @@ class C06(ProbeMixin, HistProp):
             'setcol_column': lambda dm: fnc.setcol(dm, 'z', dm.a),
             'map_': lambda dm: fnc.map_(lambda **d: {'a': d['a']}, dm[('a', 'f', 'i')]),
             'filter_': lambda dm: fnc.filter_(lambda **d: True, dm),
+            'map_col': lambda dm: fnc.map_(lambda x: x, dm.a),
+            'map_col_float': lambda dm: fnc.map_(lambda x: x + 1, dm.f),
+            'filter_col': lambda dm: fnc.filter_(lambda x: True, dm.i),
             'replace': lambda dm: ops.replace(dm.f, {1.0: 9.0}),
             'arith': lambda dm: dm.f + 1,
             'arith_mixed': lambda dm: dm.a * 2,
@@ -390,6 +393,8 @@ class C06(ProbeMixin, HistProp):
             'col_slice': lambda dm: dm.f[1:],
         }
 
+        EMPTY_UNSUPPORTED = set()
+
         def snap(obj):
             if isinstance(obj, DataMatrix):
                 return [(n_, type(c).__name__, c.dm is obj, np.array(c._seq, dtype=object).tolist().__repr__())
@@ -407,8 +412,14 @@ class C06(ProbeMixin, HistProp):
                         c[i, 0] = 123.0
                 else:
                     c[i] = 77
-            if isinstance(obj, DataMatrix) and rng_.random() < 0.5:
+            if isinstance(obj, DataMatrix) and (rng_.random() < 0.5 or len(obj) == 0):
                 obj.length = len(obj) + 1
+                if rng_.random() < 0.5:
+                    for c in [c for _n, c in obj.columns]:
+                        if not hasattr(c, 'depth'):
+                            c[-1] = 55
+                if rng_.random() < 0.3:
+                    obj.extra_col = 1
         for k in range(n):
             name = rng.choice(sorted(derivers))
             sub = random.Random(rng.randrange(1 << 30))
@@ -430,13 +441,15 @@ class C06(ProbeMixin, HistProp):
                     dm.s.depth = 4           # growing it makes a fresh contiguous buffer
                 elif c < 0.7:
                     dm.s.depth = 1
+                if sub.random() < 0.2 and name not in EMPTY_UNSUPPORTED:
+                    dm = dm.i > 100             # nothing to derive from: an empty selection (fast paths for `no rows`)
                 problem = None
                 try:
                     d = derivers[name](dm)
                     owners_ok = all(c.dm is dm for _n, c in dm.columns) and [n_ for n_, _c in dm.columns] == ['a', 'f', 'i', 's']
                     if not owners_ok:
                         problem = 'deriving with %s detached or renamed a column of the source' % name
-                    if not isinstance(d, DataMatrix) and len(d) == len(dm) and sub.random() < 0.5:
+                    if not isinstance(d, DataMatrix) and len(d) == len(dm) and len(dm) and sub.random() < 0.5:
                         # a derived column put into the table is a column of its own
                         dm.new = derivers[name](dm)
                         d2 = dm.new
